@@ -534,4 +534,122 @@ theorem selList_getElem? {α} (l : List α) :
           | zero => simp [hi]
           | succ j => simpa using selList_getElem? l idx rest hr j
 
+/-! ### `astype` on arbitrarily nested product spaces (round 4) -/
+
+theorem TSpace.astype_dtype (T : DTables) (t r : TSpace) (dt : DType) (ok : Bool)
+    (h : t.astype T dt ok = some r) : r.dtype = dt := by
+  unfold TSpace.astype at h
+  split at h
+  · next h1 => cases h; exact h1.symm
+  · split at h
+    · cases h
+    · split at h
+      · split at h
+        · split at h
+          · cases h; rfl
+          · cases h
+        · cases h; rfl
+      · cases h; rfl
+
+/-- `dtype == getattr(space, 'dtype', object)` for any space -/
+def Space.hasDtype : Space → DType → Bool
+  | .tensor t, dt => decide (t.dtype = dt)
+  | .discr d, dt => decide (d.dtype = dt)
+  | .prod l _ _, dt => Space.dtypeIs l dt
+
+theorem Space.dtypeAll_cons (s : Space) (l : List Space) (dt : DType) :
+    Space.dtypeAll (s :: l) dt = (s.hasDtype dt && Space.dtypeAll l dt) := by
+  cases s <;> simp [Space.dtypeAll, Space.hasDtype]
+
+theorem Space.dtypeIs_cons (s : Space) (l : List Space) (dt : DType) :
+    Space.dtypeIs (s :: l) dt = Space.dtypeAll (s :: l) dt := by
+  simp [Space.dtypeIs]
+
+theorem Space.astype_of_hasDtype (T : DTables) (s : Space) (dt : DType)
+    (h : s.hasDtype dt = true) : s.astype T dt = some s := by
+  cases s with
+  | tensor t => simp [Space.hasDtype] at h; simp [Space.astype, TSpace.astype, h]
+  | discr d => simp [Space.hasDtype] at h; subst h; simp [Space.astype, Discr.astype, TSpace.astype, Discr.tspace]
+  | prod l w f => simp [Space.hasDtype] at h; simp [Space.astype, h]
+
+mutual
+theorem Space.astype_hasDtype (T : DTables) : (s : Space) → (dt : DType) → (s' : Space) →
+    s.astype T dt = some s' → s'.hasDtype dt = true
+  | .tensor t, dt, s', h => by
+      simp only [Space.astype, Option.map_eq_some_iff] at h
+      obtain ⟨r, hr, rfl⟩ := h
+      simp [Space.hasDtype, TSpace.astype_dtype T t r dt true hr]
+  | .discr d, dt, s', h => by
+      simp only [Space.astype, Discr.astype, Option.map_eq_some_iff] at h
+      obtain ⟨r, ⟨r', hr, rfl⟩, rfl⟩ := h
+      simp [Space.hasDtype, TSpace.astype_dtype T _ r' dt true hr]
+  | .prod l w f, dt, s', h => by
+      simp only [Space.astype] at h
+      split at h
+      · next h1 => cases h; simpa [Space.hasDtype] using h1
+      · next h1 =>
+        cases hl : Space.astypeL T l dt with
+        | none => simp [hl] at h
+        | some l' =>
+          have ih := Space.astypeL_hasDtype T l dt l' hl
+          simp only [hl] at h
+          cases l' with
+          | nil => split at h <;> simp [mkProdW, mkProd] at h
+          | cons x r =>
+            split at h <;> simp [mkProdW, mkProd] at h <;> subst h <;>
+              simpa [Space.hasDtype, Space.dtypeIs] using ih
+theorem Space.astypeL_hasDtype (T : DTables) : (l : List Space) → (dt : DType) →
+    (l' : List Space) → Space.astypeL T l dt = some l' → Space.dtypeAll l' dt = true
+  | [], dt, l', h => by simp [Space.astypeL] at h; subst h; simp [Space.dtypeAll]
+  | s :: l, dt, l', h => by
+      simp only [Space.astypeL] at h
+      cases hs : Space.astype T s dt with
+      | none => simp [hs] at h
+      | some s' =>
+        cases hl : Space.astypeL T l dt with
+        | none => simp [hs, hl] at h
+        | some l'' =>
+          simp [hs, hl] at h; subst h
+          rw [Space.dtypeAll_cons]
+          simp [Space.astype_hasDtype T s dt s' hs, Space.astypeL_hasDtype T l dt l'' hl]
+end
+mutual
+theorem Space.hasDtype_of_eq : (a b : Space) → a.eqI b = true → (dt : DType) →
+    a.hasDtype dt = b.hasDtype dt
+  | .tensor a, .tensor b, h, dt => by
+      have := (TSpace.eqI_iff a b).1 h
+      simp only [TSpace.key, Prod.mk.injEq] at this
+      simp [Space.hasDtype, this.2.1]
+  | .discr a, .discr b, h, dt => by
+      have := (Discr.eqI_iff a b).1 h
+      simp only [Discr.key, Prod.mk.injEq] at this
+      simp [Space.hasDtype, this.2.1]
+  | .prod l w _, .prod l' w' _, h, dt => by
+      simp only [Space.eqI, Bool.and_eq_true, decide_eq_true_eq] at h
+      simpa [Space.hasDtype] using Space.dtypeIs_of_eq l l' h.1.1 h.2 dt
+  | .tensor _, .discr _, h, _ | .tensor _, .prod .., h, _ | .discr _, .tensor _, h, _
+  | .discr _, .prod .., h, _ | .prod .., .tensor _, h, _ | .prod .., .discr _, h, _ => by
+      simp [Space.eqI] at h
+theorem Space.dtypeIs_of_eq : (l l' : List Space) → l.length = l'.length →
+    Space.eqL l l' = true → (dt : DType) → Space.dtypeIs l dt = Space.dtypeIs l' dt
+  | [], [], _, _, _ => rfl
+  | [], _ :: _, h, _, _ => by simp at h
+  | _ :: _, [], h, _, _ => by simp at h
+  | a :: l, b :: l', hl, he, dt => by
+      simp only [Space.eqL, Bool.and_eq_true] at he
+      have h1 := Space.hasDtype_of_eq a b he.1 dt
+      have h2 := Space.dtypeAll_of_eq l l' (by simpa using hl) he.2 dt
+      simp [Space.dtypeIs_cons, Space.dtypeAll_cons, h1, h2]
+theorem Space.dtypeAll_of_eq : (l l' : List Space) → l.length = l'.length →
+    Space.eqL l l' = true → (dt : DType) → Space.dtypeAll l dt = Space.dtypeAll l' dt
+  | [], [], _, _, _ => rfl
+  | [], _ :: _, h, _, _ => by simp at h
+  | _ :: _, [], h, _, _ => by simp at h
+  | a :: l, b :: l', hl, he, dt => by
+      simp only [Space.eqL, Bool.and_eq_true] at he
+      have h1 := Space.hasDtype_of_eq a b he.1 dt
+      have h2 := Space.dtypeAll_of_eq l l' (by simpa using hl) he.2 dt
+      simp [Space.dtypeAll_cons, h1, h2]
+end
+
 end OdlModel.Spaces
